@@ -982,6 +982,14 @@ def iter_pipeline(fn, sink_term, arg_index=0):
                 stages.append(("zip-unbounded" if unb else "zip", None, other))
                 e = e[2][0]
                 continue
+            if short == "into_iter" and e[2]:
+                inner_ = e[2][0]
+                while inner_[0] in ("ref", "deref", "cast"):
+                    inner_ = inner_[2] if inner_[0] == "cast" else inner_[1]
+                if inner_[0] == "call" and str(inner_[1]).rsplit("::", 1)[-1] in ITER_TOTAL + ITER_SUBSET + ITER_TRUNCATING + ("zip",) and "Iterator" in str(inner_[1]):
+                    stages.append(("total:into_iter", None, e))      # `for x in iter.adaptor(..)`: identity on an iterator
+                    e = e[2][0]
+                    continue
             if short in ("iter", "iter_mut", "into_iter") and not ("Iterator::" in name and short != "into_iter"):
                 stages.append(("source", None, e))
                 break
